@@ -21,6 +21,7 @@ func (c *Ctx) registerSpec() TaintSpec {
 		c.Fn("object", "Register.ObjValue"): true,
 	}
 	isObj := func(t types.Type) bool { return types.Identical(t, objT) }
+	regTag := c.tagConst("REGISTER")
 	return TaintSpec{
 		Name: "register",
 		Source: func(v ssa.Value) bool {
@@ -28,6 +29,10 @@ func (c *Ctx) registerSpec() TaintSpec {
 			return ok && types.Identical(mi.X.Type(), ptrReg)
 		},
 		Sanitizer: func(f *types.Func) bool { return san[f] },
+		CleanAt: func(v ssa.Value, use ssa.Instruction) bool {
+			tags, known := c.tagsAt(v, use.Block())
+			return known && !tags[regTag]
+		},
 		StorageStruct: func(n *types.Named) bool { return kvT != nil && n.Obj() == kvT },
 		Carrier: func(t types.Type) bool {
 			it, ok := t.Underlying().(*types.Interface)
@@ -83,6 +88,7 @@ func runC05(c *Ctx, r *Report) {
 	r.Rule("C05.R2", "capacity: every MakeRegister is reached only when HasRegisters() on the same environment is true (in the function or in every caller of the wrapper)")
 	r.Rule("C05.R3", "registers do not escape: an object that may be a *Register passes object.Value/CopyRegister before it is stored into an array element, a map key/value or a binding")
 	r.Rule("C05.R4", "rewriter/visitor agreement: type assertions inside ast.Modify on results of the callback use the two-value form (the register rewriter substitutes *Register for *Identifier)")
+	r.Rule("C05.R6", "no use after release: a function that acquires and releases a register on a long-lived environment does not return an object that may still be that register (directly or inside a ReturnValue): the slot is reused by the next loop")
 	r.Rule("C05.R5", "fallback instead of failure: when setupRegister reports !ok the caller takes the variable path instead of returning an error")
 
 	makeReg := c.Fn("object", "Environment.MakeRegister")
@@ -260,6 +266,83 @@ func runC05(c *Ctx, r *Report) {
 	}
 	r.Floor("C05.R3", 15)
 
+	// R6 use after release
+	for _, fn := range c.ModuleSSAFuncs() {
+		obj, _ := fn.Object().(*types.Func)
+		if obj != nil {
+			if _, isWrapper := acquirers[obj]; isWrapper {
+				continue
+			}
+		}
+		holds := false
+		for _, call := range callsIn(fn, acqList...) {
+			if !isFreshEnv(call.Common().Args[acquirers[calleeObj(call)]]) {
+				holds = true
+			}
+		}
+		if !holds {
+			continue
+		}
+		eachInstr(fn, func(in ssa.Instruction) {
+			ret, ok := in.(*ssa.Return)
+			if !ok || ret.Block() == fn.Recover {
+				return // the recover block only runs after a recovered panic (none is recovered here)
+			}
+			for i := range ret.Results {
+				v := retVal(ret, i)
+				if !t.spec.Carrier(v.Type()) {
+					continue
+				}
+				desc := "returned value " + describeValue(v)
+				bad := ""
+				if t.May(v) && !t.spec.CleanAt(v, storeOrRet(ret, i)) {
+					bad = "the returned object may be a register of the environment whose register this function releases"
+				}
+				// struct results carrying a tainted field (ReturnValue.Value)
+				if mi, ok := v.(*ssa.MakeInterface); ok {
+					if ld, ok := mi.X.(*ssa.UnOp); ok {
+						if al, ok := ld.X.(*ssa.Alloc); ok {
+							if n := namedStruct(al.Type()); n != nil {
+								st := n.Underlying().(*types.Struct)
+								for f := 0; f < st.NumFields(); f++ {
+									if !t.fieldT[fieldKey{n, f}] {
+										continue
+									}
+									clean := false
+									for _, ref := range *al.Referrers() {
+										fa, ok := ref.(*ssa.FieldAddr)
+										if !ok || fa.Field != f {
+											continue
+										}
+										for _, r2 := range *fa.Referrers() {
+											if sto, ok := r2.(*ssa.Store); ok && sto.Addr == fa {
+												if t.May(sto.Val) {
+													clean = false
+													bad = "field " + st.Field(f).Name() + " of the returned " + n.Obj().Name() + " is assigned an object that may be a register"
+												} else if instrDominates(sto, ret) {
+													clean = true
+												}
+											}
+										}
+									}
+									if !clean && bad == "" {
+										bad = "field " + st.Field(f).Name() + " of the returned " + n.Obj().Name() + " may hold the released register (no copy before returning)"
+									}
+								}
+							}
+						}
+					}
+				}
+				if bad != "" {
+					r.Fail("C05.R6", ssaFuncName(fn), desc, c.Pos(instrPos(ret)), bad)
+				} else {
+					r.Ok("C05.R6", ssaFuncName(fn), desc, c.Pos(instrPos(ret)))
+				}
+			}
+		})
+	}
+	r.Floor("C05.R6", 4)
+
 	c.checkModifyAssertions(r, "C05.R4")
 	r.Floor("C05.R4", 4)
 
@@ -295,6 +378,44 @@ func runC05(c *Ctx, r *Report) {
 		}
 	}
 	r.Floor("C05.R5", 2)
+}
+
+// storeOrRet: the instruction at which the returned value is fixed (the spill store in
+// functions with defers, else the return itself).
+func storeOrRet(ret *ssa.Return, i int) ssa.Instruction {
+	v := ret.Results[i]
+	if ld, ok := v.(*ssa.UnOp); ok {
+		if al, ok := ld.X.(*ssa.Alloc); ok {
+			b := ret.Block()
+			for j := instrIndex(ld) - 1; j >= 0; j-- {
+				if st, ok := b.Instrs[j].(*ssa.Store); ok && st.Addr == al {
+					return st
+				}
+			}
+		}
+	}
+	return ret
+}
+
+// describeValue: a position-free description of a value for construct descriptors.
+func describeValue(v ssa.Value) string {
+	switch x := v.(type) {
+	case *ssa.MakeInterface:
+		return "make " + typeShort(x.X.Type())
+	case *ssa.Phi:
+		return "phi " + x.Comment
+	case *ssa.Call:
+		return "result of " + nameOfCallee(x)
+	case *ssa.Extract:
+		if call, ok := x.Tuple.(*ssa.Call); ok {
+			return fmt.Sprintf("result %d of %s", x.Index, nameOfCallee(call))
+		}
+	case *ssa.Parameter:
+		return "parameter " + x.Name()
+	case *ssa.Const:
+		return "constant"
+	}
+	return typeShort(v.Type())
 }
 
 // registerEscapeExceptions: frontier sites accepted with a reason (one named symbol each).
